@@ -73,11 +73,11 @@ func verifC21(registry map[uint32]func() bin.Object, sample, n int) {
 }
 
 // VerifC21_tg: a seed-dependent, evenly spread sample of the constructors of the Telegram API
-// schema (tg): 64 of them, 16 arbitrary bytes each (thorough tier only).
+// schema (tg): 24 of them, 12 arbitrary bytes each (thorough tier only; 64 x 16 bytes ran past 18 minutes with 140000 paths).
 func VerifC21_tg() {
 	sample, n := 16, 12
 	if verifrt.Tier() == 1 {
-		sample, n = 64, 16
+		sample, n = 24, 12
 	}
 	verifC21(TypesConstructorMap(), sample, n)
 }
